@@ -40,6 +40,11 @@ type c20Conn struct {
 	Remote   string   `json:"remote_name,omitempty"`
 	NoCfg    int      `json:"noconfigtool,omitempty"`
 	TLSSkip  int      `json:"tlsskipverify,omitempty"`
+	Proxy    string   `json:"proxy,omitempty"`
+	TLSCert  string   `json:"tlscertificate,omitempty"`
+	TLSKey   string   `json:"tlskey,omitempty"`
+	TLSCA    string   `json:"tlsca,omitempty"`
+	TLSName  string   `json:"tlsservername,omitempty"`
 }
 
 // c20Config is one configuration file: listeners (symbolic names of unix
@@ -51,6 +56,9 @@ type c20Config struct {
 
 type c20Input struct {
 	Steps []c20Config `json:"steps"`
+	// Hang (stream busy): symbolic source names behind which a scripted backend
+	// accepts connections, reads the request and does not answer
+	Hang []string `json:"hang,omitempty"`
 }
 
 // c20PeerObs is one row of `GET sites` plus what the harness knows about the
@@ -134,7 +142,7 @@ func c20Symbolic(dir, path string) string {
 func c20Toml(dir string, cfg *c20Config) string {
 	var sb strings.Builder
 	sb.WriteString("LogLevel = " + c20Quote(verifEnv("VERIF_LOGLEVEL", "off")) + "\nLogFile = \"stderr\"\n")
-	sb.WriteString("Updateinterval = 3600\nConnectTimeout = 2\nNetTimeout = 2\n")
+	fmt.Fprintf(&sb, "Updateinterval = 3600\nConnectTimeout = 2\nNetTimeout = %d\n", c20NetTimeout)
 	sb.WriteString("Listen = " + c20QuoteList(dir, cfg.Listen) + "\n\n")
 	for i := range cfg.Conns {
 		conn := &cfg.Conns[i]
@@ -169,6 +177,12 @@ func c20Toml(dir string, cfg *c20Config) string {
 		if conn.TLSSkip != 0 {
 			fmt.Fprintf(&sb, "tlsskipverify = %d\n", conn.TLSSkip)
 		}
+		for _, kv := range [][2]string{{"proxy", conn.Proxy}, {"tlscertificate", conn.TLSCert}, {"tlskey", conn.TLSKey},
+			{"tlsca", conn.TLSCA}, {"tlsservername", conn.TLSName}} {
+			if kv[1] != "" {
+				sb.WriteString(kv[0] + " = " + c20Quote(kv[1]) + "\n")
+			}
+		}
 		sb.WriteString("\n")
 	}
 
@@ -198,6 +212,9 @@ func c20MayExit(cfg *c20Config) bool {
 
 const c20Deadline = 20 * time.Second
 
+// c20NetTimeout is the NetTimeout of the configuration files (stream busy raises it)
+var c20NetTimeout = 2
+
 type c20Run struct {
 	lmd           *Daemon
 	dir           string
@@ -210,6 +227,7 @@ type c20Run struct {
 	prevListeners map[string]*Listener
 	universe      []string // all listener names of the case
 	tok           int64
+	live          bool // the sources are scripted backends that answer (stream sources): peers come up
 }
 
 // c20CleanStale removes socket directories of harness processes that died.
@@ -330,6 +348,10 @@ func (r *c20Run) settle() (peers map[string]*Peer, order []string, listeners map
 		// (updateLoop sets errorLogged when InitAllTables has returned with an
 		// error; until then the parallel table fetches keep rotating peerAddr)
 		c20WaitFor(5*time.Second, func() bool {
+			if r.live {
+				return peer.peerState.Get() == PeerStatusUp && peer.data.Load() != nil && !peer.paused.Load()
+			}
+
 			return (peer.peerState.Get() != PeerStatusPending && peer.errorLogged.Load()) || peer.paused.Load()
 		})
 	}
@@ -370,12 +392,18 @@ func (r *c20Run) settle() (peers map[string]*Peer, order []string, listeners map
 
 // c20Query sends one request over a unix socket and returns the decoded rows.
 func c20Query(path, query string) ([][]interface{}, error) {
-	conn, err := net.DialTimeout("unix", path, 2*time.Second)
+	return c20QueryWithin(path, query, 10*time.Second)
+}
+
+// c20QueryWithin: connecting, sending and the complete answer within limit.
+func c20QueryWithin(path, query string, limit time.Duration) ([][]interface{}, error) {
+	start := time.Now()
+	conn, err := net.DialTimeout("unix", path, min(limit, 2*time.Second))
 	if err != nil {
 		return nil, err
 	}
 	defer conn.Close()
-	_ = conn.SetDeadline(time.Now().Add(10 * time.Second))
+	_ = conn.SetDeadline(start.Add(limit))
 	if _, err = conn.Write([]byte(query)); err != nil {
 		return nil, err
 	}
@@ -638,7 +666,8 @@ func c20Observe(in *c20Input) []*c20StepObs {
 func coqN(v int64) string { return fmt.Sprintf("%d", v) }
 
 func c20CoqConn(conn *c20Conn) string {
-	misc := []string{conn.Auth, conn.Remote, fmt.Sprintf("%d", conn.NoCfg), fmt.Sprintf("%d", conn.TLSSkip)}
+	misc := []string{conn.Auth, conn.Remote, fmt.Sprintf("%d", conn.NoCfg), fmt.Sprintf("%d", conn.TLSSkip),
+		conn.Proxy, conn.TLSCert, conn.TLSKey, conn.TLSCA, conn.TLSName}
 
 	return fmt.Sprintf("(mkConn %s %s %s %s %s %s %s)", coqStr(conn.ID), coqStr(conn.Name), coqStrList(conn.Source),
 		coqStrList(conn.Fallback), coqStr(conn.Section), coqStrList(conn.Flags), coqStrList(misc))
@@ -690,6 +719,8 @@ func c20Coq(idx int, in *c20Input, obs []*c20StepObs) string {
 type c20Gen struct {
 	rnd    *vRand
 	wide   bool // many connections, edits at the front of the list (stream serve)
+	lists  bool // mostly multi-source connections and edits of the list attributes (stream sources)
+	plain  bool // no flag lmd knows (the scripted backends are Naemon cores)
 	nextID int
 	nextS  int
 	nextL  int
@@ -704,22 +735,130 @@ func (g *c20Gen) freshSource() string { g.nextS++; return fmt.Sprintf("s%d", g.n
 
 func (g *c20Gen) freshListener() string { g.nextL++; return fmt.Sprintf("L%d", g.nextL) }
 
+// c20FlagNames: lmd knows "icinga2" (any case); everything else is only warned about
+var c20FlagNames = []string{"icinga2", "custom", "tag-b", "ICINGA2", "x y", "naemon"}
+
+func (g *c20Gen) freshFlag(have []string) string {
+	for {
+		flag := vPick(g.rnd, c20FlagNames)
+		if g.plain && strings.EqualFold(flag, "icinga2") {
+			continue
+		}
+		if !c20Has(have, flag) {
+			return flag
+		}
+	}
+}
+
+func c20Has(list []string, val string) bool {
+	for _, x := range list {
+		if x == val {
+			return true
+		}
+	}
+
+	return false
+}
+
 func (g *c20Gen) freshConn() c20Conn {
 	g.nextID++
 	ids := []string{"id%d", "site-%d", "b%d", "Ü%d", "k %d"}
 	conn := c20Conn{ID: fmt.Sprintf(vPick(g.rnd, ids), g.nextID), Name: vPick(g.rnd, c20Names), Source: []string{g.freshSource()}}
-	if g.rnd.chance(1, 4) {
+	if g.rnd.chance(1, 3) || (g.lists && g.rnd.chance(2, 3)) {
 		conn.Source = append(conn.Source, g.freshSource())
+		if g.rnd.chance(1, 3) {
+			conn.Source = append(conn.Source, g.freshSource())
+		}
 	}
-	if g.rnd.chance(1, 6) {
+	if g.rnd.chance(1, 5) || (g.lists && g.rnd.chance(1, 3)) {
 		conn.Fallback = []string{g.freshSource()}
+		if g.rnd.chance(1, 2) {
+			conn.Fallback = append(conn.Fallback, g.freshSource())
+		}
 	}
 	conn.Section = vPick(g.rnd, c20Sections)
-	if g.rnd.chance(1, 5) {
-		conn.Flags = []string{"icinga2"}
+	if g.rnd.chance(1, 4) {
+		conn.Flags = []string{g.freshFlag(nil)}
+		for len(conn.Flags) < 3 && g.rnd.chance(1, 2) {
+			conn.Flags = append(conn.Flags, g.freshFlag(conn.Flags))
+		}
 	}
 
 	return conn
+}
+
+// editList changes a list attribute (entries are pairwise different): another
+// order of the same entries, one entry more (front, middle, end), one entry
+// less (first, last), first entry replaced. minLen is the shortest result allowed.
+func (g *c20Gen) editList(list []string, minLen int, fresh func() string) ([]string, string) {
+	rnd := g.rnd
+	res := append([]string{}, list...)
+	num := len(res)
+	pick := rnd.intn(10)
+	switch {
+	case pick < 4 && num >= 2:
+		switch rnd.intn(3) {
+		case 0:
+			res[0], res[1] = res[1], res[0]
+		case 1:
+			res = append(res[1:], res[0])
+		default:
+			for i, j := 0, num-1; i < j; i, j = i+1, j-1 {
+				res[i], res[j] = res[j], res[i]
+			}
+		}
+
+		return res, "permute"
+	case pick < 6 && num > minLen:
+		if rnd.chance(1, 2) {
+			return res[1:], "drop-first"
+		}
+
+		return res[:num-1], "drop-last"
+	case pick < 7 && num >= 1:
+		res[0] = fresh()
+
+		return res, "replace-first"
+	}
+	pos := 0
+	if rnd.chance(1, 2) {
+		pos = rnd.intn(num + 1)
+	}
+	res = append(res[:pos], append([]string{fresh()}, res[pos:]...)...)
+	if pos == 0 {
+		return res, "prepend"
+	}
+
+	return res, "extend"
+}
+
+func c20NilIfEmpty(list []string) []string {
+	if len(list) == 0 {
+		return nil
+	}
+
+	return list
+}
+
+// editLists changes one list attribute of the connection.
+func (g *c20Gen) editLists(conn *c20Conn) string {
+	var how string
+	switch pick := g.rnd.intn(10); {
+	case pick < 5:
+		conn.Source, how = g.editList(conn.Source, 1, g.freshSource)
+
+		return "modify-source-" + how
+	case pick < 8:
+		conn.Fallback, how = g.editList(conn.Fallback, 0, g.freshSource)
+		conn.Fallback = c20NilIfEmpty(conn.Fallback)
+
+		return "modify-fallback-" + how
+	}
+	flags := conn.Flags
+	conn.Flags, how = g.editList(conn.Flags, 0, func() string { return g.freshFlag(flags) })
+	conn.Flags = c20NilIfEmpty(conn.Flags)
+
+	return "modify-flags-" + how
 }
 
 func c20CloneConfig(cfg *c20Config) c20Config {
@@ -747,6 +886,9 @@ func (g *c20Gen) edit(prev *c20Config) (c20Config, string) {
 		conn.Name += "'"
 
 		return cfg, "modify-name"
+	}
+	if nc > 0 && ((g.lists && rnd.chance(3, 5)) || (!g.lists && !g.wide && rnd.chance(1, 5))) {
+		return cfg, g.editLists(&cfg.Conns[rnd.intn(nc)])
 	}
 	switch {
 	case pick < 10:
@@ -782,7 +924,7 @@ func (g *c20Gen) edit(prev *c20Config) (c20Config, string) {
 			return cfg, "modify-source-append"
 		case 4:
 			if len(conn.Flags) == 0 {
-				conn.Flags = []string{"icinga2"}
+				conn.Flags = []string{g.freshFlag(nil)}
 			} else {
 				conn.Flags = nil
 			}
@@ -801,13 +943,26 @@ func (g *c20Gen) edit(prev *c20Config) (c20Config, string) {
 
 			return cfg, "modify-fallback"
 		default:
-			switch rnd.intn(3) {
+			// the scalar settings (unix sockets never look at the tls/proxy ones)
+			switch rnd.intn(9) {
 			case 0:
 				conn.Auth += "k"
 			case 1:
 				conn.Remote += "r"
-			default:
+			case 2:
 				conn.NoCfg = 1 - conn.NoCfg
+			case 3:
+				conn.TLSSkip = 1 - conn.TLSSkip
+			case 4:
+				conn.Proxy += "http://proxy.invalid:3128"[:rnd.intn(25)+1]
+			case 5:
+				conn.TLSCert += "/etc/lmd/client.pem"[:rnd.intn(19)+1]
+			case 6:
+				conn.TLSKey += "/etc/lmd/client.key"[:rnd.intn(19)+1]
+			case 7:
+				conn.TLSCA += "/etc/lmd/ca.pem"[:rnd.intn(15)+1]
+			default:
+				conn.TLSName += "core.example"[:rnd.intn(12)+1]
 			}
 
 			return cfg, "modify-misc"
